@@ -28,7 +28,10 @@ def _ref_func(model: Model, src: str, like: FuncInfo) -> FuncInfo:
     tree = ast.parse(src)
     node = tree.body[0]
     assert isinstance(node, ast.FunctionDef)
-    return FuncInfo(node.name, like.qname + "<reference>", node, like.module, like.cls)
+    ref = FuncInfo(node.name, like.qname + "<reference>", node, like.module, like.cls)
+    from .idioms import canonicalise  # the same idiom canonicalisation the model applies to the tree
+    canonicalise(model, ref)
+    return ref
 
 
 def _cond_ast(c) -> ast.AST:
